@@ -144,7 +144,7 @@ def h_plain_import(ncomp: int, alias: bool, in_class: bool, use_sub: bool) -> bo
 
 
 # ------------------------------------------------------------------ K04c
-FORMS = ["from_abs", "from_abs_as", "from_rel1", "from_rel2", "star", "star_all", "import_mod_as", "import_dotted", "from_pkg_import_mod", "via_pkg_reimport", "from_rel_pkg_mod"]
+FORMS = ["from_abs", "from_abs_as", "from_rel1", "from_rel2", "star", "star_all", "star_emptyall", "import_mod_as", "import_dotted", "from_pkg_import_mod", "via_pkg_reimport", "from_rel_pkg_mod"]
 USES = ["none", "base", "alias", "inner", "method_base"]
 
 
@@ -157,6 +157,8 @@ def gen(form, in_class, deep, use, second):
     dsrc = "class Ka:\n    '''Ka'''\n    class Inner:\n        pass\n    def meth(self): pass\ndef fa():\n    '''fa'''\nclass _Kp:\n    pass\n"
     if form == "star_all":
         dsrc = "__all__ = ['Ka', 'fa']\n" + dsrc + "class Kz:\n    pass\n"
+    if form == "star_emptyall":
+        dsrc = "__all__ = []\n" + dsrc
     src[pk + ".d"] = (dsrc, False)
     name = "Ka"
     direct = True          # imported directly from the defining module, or through a module alias
@@ -171,7 +173,7 @@ def gen(form, in_class, deep, use, second):
         if not deep:
             return None
         imp = "from ..sub.d import Ka, fa"
-    elif form in ("star", "star_all"):
+    elif form in ("star", "star_all", "star_emptyall"):
         if in_class:
             return None          # `import *` is only allowed at module level
         imp = f"from {pk}.d import *"
@@ -191,6 +193,8 @@ def gen(form, in_class, deep, use, second):
         src[pk] = (src[pk][0] + f"from {pk}.d import Ka, fa\n", True)
         imp = f"from {pk} import Ka, fa"
         direct = False
+    if form == "star_emptyall" and use != "none":
+        return None          # nothing is bound by the star import, so the uses would not even import
     body = ""
     if use == "base":
         body = f"class Uc({name}):\n    '''Uc'''\n"
@@ -260,7 +264,7 @@ CANDIDATES = ["Ka", "Kb", "fa", "fb", "Kz", "_Kp", "Inner", "meth", "dm", "d", "
     parts=lambda: list(range(len(FORMS))), timeout=(200, 900), cls="E", tracing="concrete-after-choice", twin="first",
     code=["pydoctor.astbuilder.ModuleVistor.visit_Import/visit_ImportFrom/_importNames/_importAll/_handleAliasing", "pydoctor.model.Documentable.expandName/resolveName",
           "Module/Class._localNameToFullName", "pydoctor.model.System.find_object/getProcessedModule"],
-    bounds={"quick": "11 import forms (absolute, aliased, relative level 1 and 2, star, star with __all__, module alias, dotted module, module from package, relative module alias, re-import through a package) x class scope or module scope x package depth 1..2 x 5 uses (none, base class, assignment alias, nested class alias, nested class as base) x optional third module importing the consumer",
+    bounds={"quick": "12 import forms (absolute, aliased, relative level 1 and 2, star, star with __all__, star with an empty __all__, module alias, dotted module, module from package, relative module alias, re-import through a package) x class scope or module scope x package depth 1..2 x 5 uses (none, base class, assignment alias, nested class alias, nested class as base) x optional third module importing the consumer",
             "thorough": "same"},
     outside="import cycles (C06), __all__-driven moves (C07), names bound more than once per scope, __getattr__ modules, namespace packages",
 )
